@@ -150,6 +150,11 @@ def run_symex(k, tier, kdir, seed, res):
                         inconclusive.append('exactness obligation fails: %s at %s' % (o.ident, o.where))
                 elif o.kind == 'fpspecial' and k.get('fpspecial') == 'ignore':
                     pass
+                elif o.kind == 'fpspecial' and k.get('fpspecial') == 'violation':
+                    # the kernel's property is about IEEE special values (NaN / inf results): a reachable sqrt of a
+                    # negative number or division by zero is a candidate violation, confirmed when the native run of
+                    # the same inputs fails an assertion of the harness
+                    cands.append((e, eng, o))
                 else:
                     inconclusive.append('%s obligation reachable: %s at %s' % (o.kind, o.ident, o.where))
             else:
@@ -359,6 +364,8 @@ def main():
             rec['native_rc'] = rc
             if kind == 'assert':
                 ok = ident in fails
+            elif kind == 'fpspecial':
+                ok = bool(fails)
             else:
                 ok = 'runtime error' in err or 'AddressSanitizer' in err or rc < 0
                 rec['native_stderr'] = err[-600:]
